@@ -120,7 +120,21 @@ func compressedMode(s spec) bool { return s.traffic >= 2 }
 func newFlateWriter(w io.Writer) wsflate.Compressor   { f, _ := flate.NewWriter(w, 5); return f }
 func newFlateReader(r io.Reader) wsflate.Decompressor { return flate.NewReader(r) }
 
-var helper = wsflate.Helper{Compressor: newFlateWriter, Decompressor: newFlateReader}
+// Every session has its OWN wsflate.Helper value, and the sessions differ in codec configuration (flate level 9 /
+// 1 / Huffman-only; a decompressor that refuses more than 1 MiB): what a session puts on the wire, and how its
+// input is inflated, must be its own helper's doing.
+var helpers = func() (hs [3]*wsflate.Helper) {
+	for i, lvl := range []int{9, 1, flate.HuffmanOnly} {
+		lvl := lvl
+		hs[i] = &wsflate.Helper{
+			Compressor:   func(w io.Writer) wsflate.Compressor { f, _ := flate.NewWriter(w, lvl); return f },
+			Decompressor: func(r io.Reader) wsflate.Decompressor { return flate.NewReader(io.LimitReader(r, 1<<20+int64(lvl))) },
+		}
+	}
+	return
+}()
+
+func helperOf(s spec) *wsflate.Helper { return helpers[int(s.seed)%3] }
 
 // ---- server side
 
@@ -191,11 +205,12 @@ func serve(s spec, conn net.Conn, hs ws.Handshake, herr error, t *transcript) {
 			}
 			if err == nil {
 				var df ws.Frame
-				df, err = helper.DecompressFrame(f)
+				t.add("S got compressed %s", sum(f.Payload))
+				df, err = helperOf(s).DecompressFrame(f)
 				if err == nil {
 					payload, op = df.Payload, df.Header.OpCode
 					var cf ws.Frame
-					cf, err = helper.CompressFrame(ws.NewFrame(op, true, payload))
+					cf, err = helperOf(s).CompressFrame(ws.NewFrame(op, true, payload))
 					if err == nil {
 						err = ws.WriteFrame(conn, cf)
 					}
@@ -446,7 +461,8 @@ func runSession(s spec) *transcript {
 			wsutil.PutWriter(w)
 		case 2:
 			var cf ws.Frame
-			cf, err = helper.CompressFrame(ws.NewFrame(op, true, p))
+			cf, err = helperOf(s).CompressFrame(ws.NewFrame(op, true, p))
+			t.add("C sent compressed %s", sum(cf.Payload))
 			if err == nil {
 				err = ws.WriteFrame(conn, ws.MaskFrameInPlace(cf))
 			}
@@ -502,7 +518,8 @@ func runSession(s spec) *transcript {
 				t.add("C control op=%x %s", f.Header.OpCode, f.Payload)
 			}
 			if err == nil {
-				f, err = helper.DecompressFrame(f)
+				t.add("C got compressed %s", sum(f.Payload))
+				f, err = helperOf(s).DecompressFrame(f)
 				got, gop = f.Payload, f.Header.OpCode
 			}
 		case 3:
@@ -773,7 +790,7 @@ func main() {
 	mon.Main(&mon.Spec{
 		Property: "C19",
 		Level:    "exploration",
-		Rule: "built with -race and the pool shim (poison-on-put, deterministic LIFO reuse, runtime.Gosched injected inside every pool Get/Put - the only place sessions meet - and goroutine tracking). A case = N in {4,16,64} sessions, each a client goroutine + server goroutine over a buffered in-memory duplex, roles {ws.Upgrader, ws.HTTPUpgrader behind net/http} x {ws.Dialer, wsutil.DebugDialer, background/non-background contexts}, two thirds of the ws.Upgrader sessions over wss:// with the library's DEFAULT TLS client configuration (4 host names, per-host certificates of a private CA, SNI recorded) and one session in five with an injected connection write fault half way, traffic {Read*Data/Write*Message helpers and header + CipherWriter streaming, Reader + GetWriter/PutWriter echo, compressed frames via wsflate.Helper, compressed Writer/Reader stack with MessageState}, 3-6 messages of 0 B..100 KiB across the pool classes with pings carrying payloads and a closing handshake; GOMAXPROCS in {1,2,4,16}; 4 session mixes. " +
+		Rule: "built with -race and the pool shim (poison-on-put, deterministic LIFO reuse, runtime.Gosched injected inside every pool Get/Put - the only place sessions meet - and goroutine tracking). A case = N in {4,16,64} sessions, each a client goroutine + server goroutine over a buffered in-memory duplex, roles {ws.Upgrader, ws.HTTPUpgrader behind net/http} x {ws.Dialer, wsutil.DebugDialer, background/non-background contexts}, two thirds of the ws.Upgrader sessions over wss:// with the library's DEFAULT TLS client configuration (4 host names, per-host certificates of a private CA, SNI recorded) and one session in five with an injected connection write fault half way, traffic {Read*Data/Write*Message helpers and header + CipherWriter streaming, Reader + GetWriter/PutWriter echo, compressed frames via per-session wsflate.Helper values of three different codec configurations (the compressed bytes are part of the transcript), compressed Writer/Reader stack with MessageState}, 3-6 messages of 0 B..100 KiB across the pool classes with pings carrying payloads and a closing handshake; GOMAXPROCS in {1,2,4,16}; 4 session mixes. " +
 			"Oracle: each session's transcript (handshake results, every echo verified, control events, close codes, errors, on both sides) must equal the transcript of the same seeded session run alone; no shim alarm; shared package-level values unchanged; the Go race detector reports counted by the supervisor (GORACE log_path, halt_on_error=0) over repeated rounds. distinct = (N, GOMAXPROCS, mix).",
 		Assumptions: []string{"race reports vary run to run: the whole workload is repeated (rounds) with different seeds", "a clean race-detector run is not freedom from races on unexplored interleavings: the evidence reports the cross-goroutine buffer hand-offs actually observed"},
 		RaceLogs:    true,
